@@ -56,7 +56,8 @@ def make_chain(rng, sched, k, total, chain_len):
 def scenario_chains(ck, cfg, seed, quick, idx):
     """control run, then a chain for every stop point and scheduler"""
     rng = random.Random(seed)
-    control = {'cfg': cfg, 'specs': [{'sched': 'batch', 'choices': [], 'stop': None}], 'seed': seed, 'argv': []}
+    control = {'cfg': cfg, 'specs': [{'sched': 'batch', 'choices': [], 'stop': None}], 'seed': seed,
+               'argv': ['-f'] if rng.random() < 0.15 else []}
     r = c06.run_scenario(ck, control, 'c%d-control' % idx)
     if r is None:
         return []
@@ -73,7 +74,9 @@ def scenario_chains(ck, cfg, seed, quick, idx):
         for k in range(1, total + 1):
             chain_len = 1 if rng.random() < 0.6 else rng.choice([2, 3])
             specs = make_chain(rng, sched, k, total, chain_len)
-            scen = {'cfg': cfg, 'specs': specs, 'seed': seed, 'argv': [], 'outputs': outputs, 'build_ok': build_ok}
+            scen = {'cfg': cfg, 'specs': specs, 'seed': seed, 'argv': list(control.get('argv', [])),
+                    'outputs': control['outputs'], 'raw': control['raw'], 'build_ok': build_ok,
+                    'hostile_applied': True}
             rr = c06.run_scenario(ck, scen, 'c%d-%s-%d' % (idx, sched[:2], k))
             if rr is None:
                 continue
@@ -92,8 +95,8 @@ def judge_items(ck, items):
         ops.append(dp.scenario_op('c08.sessions', probe, outputs, build_ok, specs))
     answers = ck.model(ops)
     for (scen, probe, outputs, build_ok, observed, ctl), ans in zip(items, answers):
-        inp = {'cfg': scen['cfg'], 'specs': scen['specs'], 'seed': scen['seed'], 'argv': [],
-               'outputs': outputs, 'build_ok': build_ok}
+        inp = {'cfg': scen['cfg'], 'specs': scen['specs'], 'seed': scen['seed'], 'argv': scen.get('argv', []),
+               'outputs': scen['outputs'], 'raw': scen.get('raw'), 'build_ok': build_ok}
         judge(ck, inp, probe, outputs, observed, ans, ctl)
 
 
@@ -348,7 +351,7 @@ def replay(ck, data):
         ck.notes.append('CLI replays re-run the signal sessions from the seed')
         cli_sessions(ck, 6, BIG_KILL)
         return
-    scen = {k: inp[k] for k in ('cfg', 'specs', 'seed', 'argv', 'outputs', 'build_ok') if k in inp}
+    scen = {k: inp[k] for k in ('cfg', 'specs', 'seed', 'argv', 'outputs', 'raw', 'build_ok') if k in inp}
     if scen.get('outputs'):
         scen['outputs'] = [[None if o is None else [[tuple(m) for m in d] for d in o] for o in per]
                            for per in scen['outputs']]
